@@ -13,6 +13,8 @@ model's own `scores()`:
 
 Rows are matched BY LABEL (labels are known from the workload builder, not from xeofs).
 """
+import warnings
+
 from .. import gen, zoo
 from . import c04_common as cc
 
@@ -72,6 +74,10 @@ def cases(tier, seed):
         for li, layout in enumerate(cc.STACKED):
             rng = gen.rng_for(4004, 1000 + 2 * j + li)
             out.append(cc.draw_case(cells[name], rng, layout=layout, nan="s" if (j + li) % 2 else "sf"))
+    # multi.CCA with its PCA step on views whose rank exceeds the randomised sketch (modes + 10): scores() must
+    # still be exactly what transform() computes (both project the preprocessed views on the same weights)
+    for j in range(2 if tier == "quick" else 6):
+        out.append(dict(kind="multi_big", cls="multi.CCA", cell="multi.CCA|pca=big", dseed=4400 + j, n=int(90 + 10 * j), ps=[48 + j, 45 - j]))
     nrand = 300 if tier == "quick" else 9000
     fams = list(FAMILY_P)
     pf = [FAMILY_P[k] for k in fams]
@@ -84,7 +90,40 @@ def cases(tier, seed):
     return out
 
 
+def _run_multi_big(case, obs):
+    import numpy as np
+    import xeofs as xe
+
+    from .. import xu
+
+    obs.tag(cls="multi.CCA", op="transform", family="multi_big")
+    obs.cell("family:multi_big", f"called:{case['cell']}")
+    rng = gen.rng_for(case["dseed"], 44)
+    n = case["n"]
+    views = []
+    common = rng.standard_normal((n, 3))
+    for vi, p in enumerate(case["ps"]):
+        M = rng.standard_normal((n, p)) * rng.uniform(0.6, 1.4, size=p) + common @ rng.standard_normal((3, p))
+        views.append(xu.make_da(M, (p,), ("x%d" % vi,)))
+    with warnings.catch_warnings():
+        warnings.simplefilter("ignore")
+        m = xe.multi.CCA(n_modes=2, pca=True, init_pca_modes=0.75, variance_fraction=0.9)
+        m.fit(views, dim="time")
+        S = m.scores()
+        T = m.transform(views)
+    obs.nontrivial = True
+    obs.check("transform_count", len(T) == len(S) == len(views), f"{len(T)} / {len(S)} results for {len(views)} views", tags={"symptom": "result_count"})
+    for i, (t, s_) in enumerate(zip(T, S)):
+        a = np.asarray(t.transpose("time", "mode").values)
+        b = np.asarray(s_.transpose("time", "mode").values)
+        obs.count("value_comparisons")
+        obs.close("transform_equals_scores_multi_big", a, b, 1e-8, tags={"symptom": "transform_ne_scores", "mismatch": "values", "field": i})
+    obs.cell(f"compared:{case['cell']}")
+
+
 def run_case(case, obs):
+    if case.get("kind") == "multi_big":
+        return _run_multi_big(case, obs)
     obs.tag(cls=case["cls"], op="transform")
     etags = {"nan_samples": bool(case["ns_nan"]), "stacked_samples": bool(case["layout"] in cc.STACKED)}  # delimit exceptions
     obs.cell(f"layout:{case['layout']}", f"nan:{case['nan']}", f"cplx_input:{case['cplx']}", "shape:wide" if case["wide"] else "shape:tall")
@@ -122,13 +161,36 @@ def run_case(case, obs):
         calls = [("transform", list(range(nfld)))]
         if is_cross and normalized == partial_under:
             calls += [("transform_X_only", [0]), ("transform_Y_only", [1])]
+        if normalized in (None, False):
+            # the very same training data, presented with its axes in another order / with one feature axis
+            # stored in reverse (labels move with the values): still "the data the model was fitted on"
+            calls += [("transform_transposed", list(range(nfld))), ("transform_feature_reversed", list(range(nfld)))]
         for op, which in calls:
-            if op != "transform":
+            if op in ("transform_transposed", "transform_feature_reversed"):
+                obs.cell(f"op:{op}")
+                data = [_relayout(f_, op, sdims) for f_ in tr["fields"]]
+                if op == "transform_feature_reversed":
+                    # reordered feature labels may be refused (the fitted coordinates are compared); if the call
+                    # answers, the answer must be the scores
+                    try:
+                        with warnings.catch_warnings():
+                            warnings.simplefilter("ignore")
+                            T = fitted.transform(*data, **kw)
+                    except Exception as e:  # noqa: BLE001
+                        if cc.exception_site(e, cc.REPO) is None:
+                            raise
+                        obs.cell("feature_reversed:refused")
+                        continue
+                    obs.cell("feature_reversed:answered")
+                else:
+                    T = cc.guarded(obs, op, lambda: fitted.transform(*data, **kw), tags=dict(etags, relayout="transposed"), ctx=ctx)
+            elif op != "transform":
                 obs.cell(f"op:{op}")
                 data = [tr["fields"][0] if 0 in which else None, tr["fields"][1] if 1 in which else None]
+                T = cc.guarded(obs, op, lambda: fitted.transform(*data, **kw), tags=etags, ctx=ctx)
             else:
                 data = list(tr["fields"])
-            T = cc.guarded(obs, op, lambda: fitted.transform(*data, **kw), tags=etags, ctx=ctx)
+                T = cc.guarded(obs, op, lambda: fitted.transform(*data, **kw), tags=etags, ctx=ctx)
             if T is None:
                 continue
             if not obs.check("transform_count", len(T) == len(which), f"{op}: {len(T)} results for {len(which)} fields", tags={"symptom": "result_count"}):
@@ -140,7 +202,7 @@ def run_case(case, obs):
                 n0 = obs.mon.get("value_comparisons", 0)
                 cc.compare(
                     obs, "transform", t, sdims, keys, w, valid, wm, tol, {}, "transform_ne_scores", "sample_labels",
-                    ctx=dict(ctx, call=op, field=i, container=case["fields"][i]["kind"]), vtags=cc.field_tags(case, i), classify=True,
+                    ctx=dict(ctx, call=op, field=i, container=case["fields"][i]["kind"]), vtags=dict(cc.field_tags(case, i), call=op, container=case["fields"][i]["kind"]), classify=True,
                 )
                 if obs.mon.get("value_comparisons", 0) > n0:
                     compared += 1
@@ -149,6 +211,22 @@ def run_case(case, obs):
     if compared:
         obs.cell(f"compared:{case['cell']}")
     obs.note("compared", compared)
+
+
+def _relayout(obj, op, sdims):
+    """The same data by label: axes in reverse order, or the last feature axis of size > 1 stored in reverse."""
+    import xarray as xr
+
+    if isinstance(obj, list):
+        return [_relayout(o, op, sdims) for o in obj]
+    if op == "transform_transposed":
+        if isinstance(obj, xr.Dataset):
+            return obj.transpose(*list(obj.dims)[::-1])
+        return obj.transpose(*obj.dims[::-1])
+    fd = [d for d in obj.dims if d not in sdims and obj.sizes[d] > 1]
+    if not fd:
+        return obj
+    return obj.isel({fd[-1]: slice(None, None, -1)})
 
 
 def evidence_extra(results, extras):
